@@ -7,8 +7,11 @@ import random
 from .. import common, proj, rustgen as rg, shape as sh
 from ..common import Verdict
 
-INT_BOUNDS = ["0", "1", "2", "10", "255", "1000", "65535", "4294967295", "9007199254740991", "18446744073709551615"]
-NUM_BOUNDS = ["0", "1", "-1", "-5", "100", "0.5", "-0.5", "3.14", "-273.15", "1e3", "1.5e-3", "-2e10", "1000000", "0.1", "99.999", "1e21", "2.5E2"]
+INT_BOUNDS = ["0", "1", "2", "10", "255", "1000", "65535", "4294967295", "9007199254740991", "18446744073709551615",
+              # other spellings of integer literals
+              "1_000", "10_000", "1_000_000", "255u8", "16usize", "0xFF", "0b1010", "0o17", "1_0"]
+NUM_BOUNDS = ["0", "1", "-1", "-5", "100", "0.5", "-0.5", "3.14", "-273.15", "1e3", "1.5e-3", "-2e10", "1000000", "0.1", "99.999", "1e21", "2.5E2",
+              "1_000_000", "-2_500", "255u8", "0.5f64", "-1.5f32", "0xFF", "1_000.5", "10i64", "1e3f64", "(5)", "-(5)"]
 MSG_WORDS = ["must", "not", "be", "empty", "email", "url", "min", "max", "length", "range", "message", "value", "too", "long", "short", "between"]
 MSG_SPECIAL = ["é", "ü", "ñ", "日本", "😀", "→", "'", "\\\"", "\\\\", "(", ")", ",", "=", "<b>", "${x}", "`", ";", ":", "%", "\\n", "\\t", "  ", "#", "[", "]", "{", "}"]
 
@@ -67,9 +70,9 @@ def gen_field(rnd, k):
         validators.append("length(%s)" % ", ".join(args))
         m = rust_unescape(msg) if msg is not None else None
         if mn is not None:
-            expected.append(("min", float(mn), m))
+            expected.append(("min", lit_value(mn), m))
         if mx is not None:
-            expected.append(("max", float(mx), m))
+            expected.append(("max", lit_value(mx), m))
         feats.add("length-on-" + base + ("-option" if opt else ""))
     if base == "num" and rnd.random() < 0.85:
         mn = rnd.choice(NUM_BOUNDS) if rnd.random() < 0.75 else None
@@ -91,9 +94,9 @@ def gen_field(rnd, k):
         validators.append("range(%s)" % ", ".join(args))
         m = rust_unescape(msg) if msg is not None else None
         if mn is not None:
-            expected.append(("min", float(mn), m))
+            expected.append(("min", lit_value(mn), m))
         if mx is not None:
-            expected.append(("max", float(mx), m))
+            expected.append(("max", lit_value(mx), m))
         feats.add("range" + ("-option" if opt else ""))
     if base == "str":
         r = rnd.random()
@@ -131,7 +134,31 @@ def gen_field(rnd, k):
     return name, ty, attrs, expected, feats
 
 
+def lit_value(b):
+    """value of a Rust numeric literal spelling"""
+    t = b.replace("_", "").replace("(", "").replace(")", "")
+    neg = t.startswith("-")
+    t = t.lstrip("-")
+    for suf in ("usize", "isize", "u8", "u16", "u32", "u64", "u128", "i8", "i16", "i32", "i64", "i128", "f32", "f64"):
+        if t.endswith(suf) and not t.lower().startswith("0x"):
+            t = t[: -len(suf)]
+            break
+    if t.lower().startswith(("0x", "0b", "0o")):
+        v = float(int(t, 0))
+    else:
+        v = float(t)
+    return -v if neg else v
+
+
 def bound_class(b):
+    if "_" in b:
+        return "bound-underscore-separated"
+    if b.lower().startswith(("0x", "0b", "0o")):
+        return "bound-radix-prefix"
+    if any(b.endswith(s) for s in ("u8", "usize", "f64", "f32", "i64")):
+        return "bound-type-suffix"
+    if "(" in b:
+        return "bound-parenthesised"
     if "e" in b.lower():
         return "bound-exponent"
     if b.startswith("-") and "." in b:
